@@ -214,7 +214,9 @@ class C05(Prop):
                   "interleavings inside a burst are the Go runtime's (free-running and -race runs sample them). semaphore.Weighted, "
                   "WaitGroup and os/exec are modelled, not verified. Crash of a server in the middle of a batch and client death are "
                   "C11/C10/C04's (not modelled here). The flag layer of cmd/connectconformance (--port forcing --max-servers=1) is not "
-                  "modelled: the property bounds by --max-servers as given to Run (seed C05-16 triaged out of scope).")
+                  "modelled: the property bounds by --max-servers as given to Run (seed C05-16 triaged out of scope)."
+                  " Live-server bound in client mode (both in-process server kinds): observed by the scripted client dialing every address "
+                  "it was handed (detail 3, held answers, idle time 400 ms); an overlap shorter than the client's sweep can be missed.")
     technique = "Coq invariant proofs over arbitrary schedules of a transition system; lockstep differential against scripted peer processes"
     go_timeout = 1500
 
